@@ -121,6 +121,8 @@ def decision(label, src, st):
         return args[0], []
     if name == "ConnAck":
         return "r", {"t": "CONNACK", "sp": args[0], "rc": 0, "rm": args[1]}
+    if name == "ConnAckBad":
+        return "r", {"t": "CONNACK", "sp": args[0], "rc": 0, "rm": 0, "bad": True}
     if name == "ConnOther":
         return "r", args[0]
     if name == "LoseInconsistent":
